@@ -332,6 +332,15 @@ def preflight():
                 if f["name"] == fname:
                     f.update(kw)
         return mut
+    def poke_with_unannotated_request_id(sp):
+        # PokeWidget gets its own request type with a `request_id` that is NOT annotated UUID4
+        f0 = sp["files"][0]
+        f0["messages"].append({"name": "PokeWidgetRequest", "fields": [{"name": "name", "number": 1, "type": "string"},
+                                                                      {"name": "request_id", "number": 2, "type": "string"}]})
+        for m in f0["services"][0]["methods"]:
+            if m["name"] == "PokeWidget":
+                m["input"] = P + ".PokeWidgetRequest"
+    PK = {"selector": SVC + ".PokeWidget", "auto_populated_fields": ["request_id"]}
     A = {"selector": SVC + ".CreateWidget", "auto_populated_fields": ["request_id"]}
     B = {"selector": SVC + ".GetWidget"}
     C = {"selector": SVC + ".DeleteWidget"}
@@ -354,6 +363,9 @@ def preflight():
         ("required_field", spec_with([A], set_field("CreateWidgetRequest", "request_id", required=True)), True),
         ("unannotated_field", spec_with([A], set_field("CreateWidgetRequest", "request_id", uuid4=False)), True),
         ("one_bad_of_two_fields", spec_with([{"selector": SVC + ".CreateWidget", "auto_populated_fields": ["request_id", "parent"]}]), True),
+        ("same_field_name_bad_in_second_selector", spec_with([A, PK], poke_with_unannotated_request_id), True),
+        ("same_field_name_bad_in_first_selector", spec_with([PK, A], poke_with_unannotated_request_id), True),
+        ("same_field_name_bad_selector_alone", spec_with([PK], poke_with_unannotated_request_id), True),
         ("duplicate_adjacent", spec_with([A, dict(A)]), True),
         ("duplicate_separated", spec_with([A, B, dict(A)]), True),
         ("duplicate_separated_empty_last", spec_with([A, B, {"selector": SVC + ".CreateWidget"}]), True),
